@@ -2,9 +2,8 @@
 # usage: mutcheck.sh <ID> [props...]
 # apply mutant <ID> to a scratch worktree of /repo's HEAD (never to /repo itself), run the checks against it, clean up.
 id=$1; shift
-patch=/tmp/mut/$id/out/patch.rebased.diff; [ -f $patch ] || patch=/tmp/mut/$id/out/patch.diff
-[ -f /verif/seeded/$id/patch.diff ] && patch=/verif/seeded/$id/patch.diff
-props=${@:-C01 C02 C03 C04 C05 C06 C07 C10 C11 C12 C13 C14 C15}
+patch=/verif/seeded/$id/patch.diff
+props=${@:-C01 C02 C03 C04 C05 C06 C07 C08 C09 C10 C11 C12 C13 C14 C15 C16 C17 C18}
 wt=/tmp/mutrun/$id
 rm -rf $wt; mkdir -p /tmp/mutrun; git -C /repo worktree prune
 git -C /repo worktree add --detach $wt HEAD >/dev/null 2>&1 || { echo "worktree failed"; exit 9; }
